@@ -2,11 +2,13 @@ import Driver.Util
 import Driver.Suites.Blocks
 import Driver.Suites.Tier
 import Driver.Suites.Trkwire
+import Driver.Suites.Announcer
 /-! Table of suites known to the driver.  One line per suite (merge=union friendly). -/
 namespace Driver
 def registry : List Suite := [
   Suites.Blocks.suite,
   Suites.Tier.suite,
   Suites.Trkwire.suite,
+  Suites.Announcer.suite,
 ]
 end Driver
